@@ -24,13 +24,49 @@ func Root() string {
 	return "/verif"
 }
 
-// Finding is one entry of known_findings.json.
+// Finding is one entry of KNOWN_FINDINGS.txt (see the header of that file).
 type Finding struct {
 	Property string `json:"property"`
 	Key      string `json:"key"`
 	Status   string `json:"status"` // "known" | "fixed"
 	Commit   string `json:"commit,omitempty"`
 	What     string `json:"what"`
+}
+
+// ParseFindings reads the line format of KNOWN_FINDINGS.txt:
+//
+//	known: property=<id> key=<violation key> <what fails>
+//	fixed: property=<id> <commit> <what failed>
+func ParseFindings(text string) []Finding {
+	var out []Finding
+	for _, line := range strings.Split(text, "\n") {
+		line = strings.TrimSpace(line)
+		var f Finding
+		switch {
+		case strings.HasPrefix(line, "known:"):
+			f.Status = "known"
+		case strings.HasPrefix(line, "fixed:"):
+			f.Status = "fixed"
+		default:
+			continue
+		}
+		fields := strings.Fields(line[6:])
+		if len(fields) < 3 || !strings.HasPrefix(fields[0], "property=") {
+			continue
+		}
+		f.Property = strings.TrimPrefix(fields[0], "property=")
+		if f.Status == "known" {
+			if !strings.HasPrefix(fields[1], "key=") {
+				continue
+			}
+			f.Key = strings.TrimPrefix(fields[1], "key=")
+		} else {
+			f.Commit = fields[1]
+		}
+		f.What = strings.Join(fields[2:], " ")
+		out = append(out, f)
+	}
+	return out
 }
 
 type violation struct {
@@ -131,13 +167,10 @@ func New(prop, level string) *Run {
 			r.Seed = v
 		}
 	}
-	if b, err := os.ReadFile(filepath.Join(Root(), "known_findings.json")); err == nil {
-		var all []Finding
-		if json.Unmarshal(b, &all) == nil {
-			for _, f := range all {
-				if f.Property == prop {
-					r.known = append(r.known, f)
-				}
+	if b, err := os.ReadFile(filepath.Join(Root(), "KNOWN_FINDINGS.txt")); err == nil {
+		for _, f := range ParseFindings(string(b)) {
+			if f.Property == prop {
+				r.known = append(r.known, f)
 			}
 		}
 	}
